@@ -2,7 +2,6 @@
 #include "common/grammar_runner.hpp"
 #include "common/templates_values.hpp"
 
-#ifndef VALUES_MOVE_ONLY
 // ===================================================================================================
 // C13
 template<class TT>
@@ -68,6 +67,7 @@ static Verdict check_c13(const GCase& c, Stats& st)
             // plain parse
             { tpl::CallLog log; tpl::g_log = &log; auto r = p.parse(opts, buf, ns); tpl::g_log = nullptr; has_plain = r.has_value(); if (has_plain) v_plain = r.value().get_value().h;
               if (has_plain != e.rr.accepted) return fail("parse outcome differs from the reference", "none"); }
+#ifndef VALUES_MOVE_ONLY
             // (a) non-const lvalue
             { tpl::Ctx ctx; tpl::CallLog log; tpl::g_log = &log; auto r = p.context_parse(ctx, opts, buf, ns); tpl::g_log = nullptr;
               if (!verify(log, &ctx, false, true, true, "non-const&", what)) return fail(what, "non-const&");
@@ -83,11 +83,13 @@ static Verdict check_c13(const GCase& c, Stats& st)
               if (!verify(log, &ctx, false, false, true, "rvalue", what)) return fail(what, "rvalue");
               if (ctx.seen != exp_ctx) return fail("rvalue context: the object the functors saw is not the caller's object", "rvalue");
               if (r.has_value() != has_plain || (has_plain && r.value().get_value().h != v_plain)) return fail("parse and context_parse disagree", "rvalue"); }
-            // (d) move-only rvalue
+#else
+            // (d) move-only rvalue (own build: a library change that copies the context must show as 'move-only contexts no longer compile')
             { tpl::MCtx ctx; tpl::CallLog log; tpl::g_log = &log; auto r = p.context_parse(std::move(ctx), opts, buf, ns); tpl::g_log = nullptr;
               if (!verify(log, &ctx, false, false, true, "move-only rvalue", what)) return fail(what, "move-only rvalue");
               if (ctx.seen != exp_ctx) return fail("move-only context: the object the functors saw is not the caller's object", "move-only rvalue");
               if (r.has_value() != has_plain || (has_plain && r.value().get_value().h != v_plain)) return fail("parse and context_parse disagree", "move-only rvalue"); }
+#endif
         }
         catch (const std::exception& ex) { tpl::g_log = nullptr; vj::Value d = vj::Value::object(); d.set("exception", ex.what()); return fail("parse threw", "?", d); }
         st.sub_evaluations += st.counting ? 5 : 0;
@@ -104,15 +106,17 @@ static Verdict check_c13(const GCase& c, Stats& st)
 struct P_C13
 {
     using Case = GCase;
+#ifdef VALUES_MOVE_ONLY
+    static const char* id() { return "C13m"; }
+#else
     static const char* id() { return "C13"; }
+#endif
     static Case gen(Choice& ch) { gg::prefer_kind() = 'c'; Case c = gen_case(ch, gg::ANY, 10, false, true); gg::prefer_kind() = 0; return c; }
     static vj::Value to_json(const Case& c) { return gcase_to_json(c); }
     static Case from_json(const vj::Value& v) { return gcase_from_json(v); }
     static std::vector<Case> shrinks(const Case& c, const vj::Value& d) { return gcase_shrinks(c, d); }
     static Verdict eval(const Case& c, Stats& st) { return c.tmpl == 0 ? check_c13<TT36>(c, st) : check_c13<TT20>(c, st); }
 };
-
-#endif
 
 // ===================================================================================================
 // C14
@@ -230,11 +234,8 @@ int main(int argc, char** argv)
     int rc = 2;
     eng::on_big_stack([&]
     {
-#ifndef VALUES_MOVE_ONLY
-        if (a.prop == "C13") rc = eng::run_property<P_C13>(a);
-        else
-#endif
-        if (a.prop == "C14" || a.prop == "C14m") rc = eng::run_property<P_C14>(a);
+        if (a.prop == "C13" || a.prop == "C13m") rc = eng::run_property<P_C13>(a);
+        else if (a.prop == "C14" || a.prop == "C14m") rc = eng::run_property<P_C14>(a);
         else { fprintf(stderr, "unknown --prop %s\n", a.prop.c_str()); rc = 2; }
     });
     return rc;
